@@ -37,6 +37,7 @@ def run_check(pid: str, tier: str, seed: int, program=None, quiet=False, write=T
     except Exception as e:  # any internal failure is an analysis error, never a violation
         chk.analysis_error(f"internal error {type(e).__name__}: {e} :: {traceback.format_exc(limit=6).splitlines()[-3:]}")
     if not write:
+        chk.apply_floors()
         return None, chk
     selftest = None
     if tier == "thorough" and not chk.errors:
